@@ -324,6 +324,69 @@ async fn run_tcp(c: &TcpCase) -> CaseResult {
     Ok(obs)
 }
 
+/// default (system) resolver: only `localhost` can be resolved in the sandbox. `n_closed` closed
+/// ports are irrelevant here; the request is "localhost:<port of a live listener>" and the answer
+/// may list ::1 first (refused: nothing listens there) — the connector must fall back in order.
+#[derive(Clone, Debug, Serialize, Deserialize, PartialEq)]
+pub struct DefaultCase {
+    pub via_connector: bool,
+    pub set_port: bool,
+}
+
+pub fn check_default(c: &DefaultCase) -> CaseResult {
+    thread_local! {
+        static RT: tokio::runtime::Runtime = tokio::runtime::Builder::new_current_thread().enable_all().build().unwrap();
+    }
+    RT.with(|rt| {
+        let ls = tokio::task::LocalSet::new();
+        ls.block_on(rt, async {
+            for _rep in 0..7 {
+                check_default_once(c).await?;
+            }
+            check_default_once(c).await
+        })
+    })
+}
+
+async fn check_default_once(c: &DefaultCase) -> CaseResult {
+    {
+        {
+            let l = std::net::TcpListener::bind("127.0.0.1:0").map_err(|e| Fail::new("harness/setup", format!("{e}")))?;
+            l.set_nonblocking(true).ok();
+            let addr = l.local_addr().unwrap();
+            let req = if c.set_port { ConnectInfo::new("localhost".to_string()).set_port(addr.port()) } else { ConnectInfo::new(format!("localhost:{}", addr.port())) };
+            let res = if c.via_connector {
+                tokio::time::timeout(Duration::from_secs(10), Connector::default().service().call(req)).await.map_err(|_| Fail::new("C19/hang", "Connector (default resolver) did not resolve within 10 s"))?
+            } else {
+                match tokio::time::timeout(Duration::from_secs(10), Resolver::default().service().call(req)).await.map_err(|_| Fail::new("C19/hang", "default resolver did not resolve within 10 s"))? {
+                    Ok(r2) => {
+                        let got: Vec<SocketAddr> = r2.addrs().collect();
+                        if got.is_empty() || got.iter().any(|a| a.port() != addr.port()) {
+                            return Err(Fail::new("C19/default-resolver", format!("the default resolver produced {:?} for localhost:{}", got, addr.port())));
+                        }
+                        tokio::time::timeout(Duration::from_secs(10), TcpConnector::default().service().call(r2)).await.map_err(|_| Fail::new("C19/hang", "TCP connector did not resolve within 10 s"))?
+                    }
+                    Err(e) => Err(e),
+                }
+            };
+            match res {
+                Ok(conn) => {
+                    let peer = conn.io_ref().peer_addr().ok();
+                    let _ = socket2::SockRef::from(conn.io_ref()).set_linger(Some(Duration::ZERO));
+                    if peer != Some(addr) {
+                        return Err(Fail::new("C19/wrong-address", format!("localhost:{} connected to {:?}", addr.port(), peer)));
+                    }
+                }
+                Err(e) => return Err(Fail::new("C19/default-resolver", format!("connecting to localhost:{} (a live listener on 127.0.0.1) failed: {}", addr.port(), e))),
+            }
+            let mut obs = Obs::new();
+            obs.nontrivial = true;
+            obs.label("default-resolver");
+            Ok(obs)
+        }
+    }
+}
+
 // ================================================================================================
 // TLS connectors over in-memory pipes
 // ================================================================================================
@@ -562,6 +625,24 @@ pub fn run(ctx: &Ctx) {
         tcp_strategy,
         check_tcp,
     );
+    // the system resolver: only where "localhost" resolves (skipped, not failed, otherwise)
+    if std::net::ToSocketAddrs::to_socket_addrs(&("localhost", 80)).map(|mut i| i.next().is_some()).unwrap_or(false) {
+        let cases = [(true, true), (true, false), (false, true), (false, false)];
+        ctx.run_enum(
+            Part::new("default-resolver", "request host \"localhost\" (port in the host string or through set_port) resolved by the default system resolver and dialled by Connector / Resolver+TcpConnector against a live listener on 127.0.0.1: the stream must reach that listener (the answer may list ::1 first, which refuses); 4 configurations, each run 8 times inside one case; non-trivial = always", 4).shards(4),
+            |shard, n, f: &mut dyn FnMut(&DefaultCase) -> bool| {
+                for i in 0..4usize {
+                    if i % n == shard {
+                        let (via_connector, set_port) = cases[i];
+                        if !f(&DefaultCase { via_connector, set_port }) {
+                            return;
+                        }
+                    }
+                }
+            },
+            check_default,
+        );
+    }
     ctx.run_random(
         Part::new("tls", RULE_TLS, ctx.tier.scale(12_000, 8)).floors(&[("handshake-ok", 0.05), ("handshake-rejected", 0.4), ("ip-literal-host", 0.1), ("untrusted-issuer", 0.1), ("invalid-name", 0.1)]).shrink_iters(500),
         tls_strategy,
@@ -572,6 +653,7 @@ pub fn run(ctx: &Ctx) {
 pub fn replay(ctx: &Ctx, v: &Value) -> i32 {
     match v["part"].as_str().unwrap_or("") {
         p if p.starts_with("tls") => ctx.replay::<TlsCase>(v, check_tls),
+        p if p.starts_with("default-resolver") => ctx.replay::<DefaultCase>(v, check_default),
         _ => ctx.replay::<TcpCase>(v, check_tcp),
     }
 }
